@@ -19,15 +19,16 @@ Definition same_result (a b : res tinfo) : bool :=
   | _, _ => false
   end.
 
+(* the faithful configuration with one more switch turned on *)
 Definition switches : list fixes :=
-  [ mkfx true false false false false false false false;     (* bit 0: D3  cast fill *)
-    mkfx false true false false false false false false;     (* bit 1: D1  shift promotion *)
-    mkfx false false true false false false false false;     (* bit 2: D2  logical results as int *)
-    mkfx false false false true false false false false;     (* bit 3: D13 comparison / ?: promotion *)
-    mkfx false false false false true false false false;     (* bit 4: D14 compound assignment conversion *)
-    mkfx false false false false false true false false;     (* bit 5: D6  literal typing / folding *)
-    mkfx false false false false false false true false;     (* bit 6: D19 division / remainder *)
-    mkfx false false false false false false false true ].   (* bit 7: D20 address conversion *)
+  [ mkfx true  (fx_shift_promote faithful) (fx_bool_int faithful) (fx_cmp_promote faithful) (fx_compound_conv faithful) (fx_literals faithful) (fx_divmod faithful) (fx_addr faithful) (fx_reject_dropped faithful);   (* bit 0: D3 *)
+    mkfx (fx_cast_fill faithful) true (fx_bool_int faithful) (fx_cmp_promote faithful) (fx_compound_conv faithful) (fx_literals faithful) (fx_divmod faithful) (fx_addr faithful) (fx_reject_dropped faithful);      (* bit 1: D1 *)
+    mkfx (fx_cast_fill faithful) (fx_shift_promote faithful) true (fx_cmp_promote faithful) (fx_compound_conv faithful) (fx_literals faithful) (fx_divmod faithful) (fx_addr faithful) (fx_reject_dropped faithful); (* bit 2: D2 *)
+    mkfx (fx_cast_fill faithful) (fx_shift_promote faithful) (fx_bool_int faithful) true (fx_compound_conv faithful) (fx_literals faithful) (fx_divmod faithful) (fx_addr faithful) (fx_reject_dropped faithful);    (* bit 3: D13 *)
+    mkfx (fx_cast_fill faithful) (fx_shift_promote faithful) (fx_bool_int faithful) (fx_cmp_promote faithful) true (fx_literals faithful) (fx_divmod faithful) (fx_addr faithful) (fx_reject_dropped faithful);      (* bit 4: D14 *)
+    mkfx (fx_cast_fill faithful) (fx_shift_promote faithful) (fx_bool_int faithful) (fx_cmp_promote faithful) (fx_compound_conv faithful) true (fx_divmod faithful) (fx_addr faithful) (fx_reject_dropped faithful);  (* bit 5: D6 *)
+    mkfx (fx_cast_fill faithful) (fx_shift_promote faithful) (fx_bool_int faithful) (fx_cmp_promote faithful) (fx_compound_conv faithful) (fx_literals faithful) true (fx_addr faithful) (fx_reject_dropped faithful); (* bit 6: D19 *)
+    mkfx (fx_cast_fill faithful) (fx_shift_promote faithful) (fx_bool_int faithful) (fx_cmp_promote faithful) (fx_compound_conv faithful) (fx_literals faithful) (fx_divmod faithful) true (fx_reject_dropped faithful) ]. (* bit 7: D20 *)
 
 Fixpoint has_call_e (e : cexpr) : bool :=
   match e with
